@@ -17,9 +17,14 @@ def run_flow(v, t, max_iter, step, stop_eps):
 
 
 def normalize(v, t):
-    with core.quiet():
-        m = TriaMesh(v, t); m.normalize_()
-    return np.array(m.v)
+    """the model's `normalize` (Measures.normalize: v -> (v - c) / sqrt(area), c = area-weighted mean of the triangle centres), evaluated
+    independently of the implementation under test"""
+    v = np.asarray(v, float); t = np.asarray(t)
+    p0, p1, p2 = v[t[:, 0]], v[t[:, 1]], v[t[:, 2]]
+    a = 0.5 * np.linalg.norm(np.cross(p2 - p1, p0 - p2), axis=1)
+    total = a.sum()
+    c = (((p0 + p1 + p2) / 3.0) * (a / total)[:, None]).sum(axis=0)
+    return (1.0 / np.sqrt(total)) * (v - c)
 
 
 def star_sphere(rng, level=2, amp=0.25):
@@ -204,9 +209,11 @@ class Check(BaseCheck):
                 return core.Violation("flow-pure", "tria_mean_curvature_flow modified its argument", case)
             if not np.array_equal(out.t, t) or out is m:
                 return core.Violation("flow-connectivity", "connectivity changed / same object returned", case)
-            with core.quiet():
-                ar = out.area(); cen = out.centroid()[0]
-            if abs(ar - 1) > 1e-8 or np.max(np.abs(cen)) > 1e-8:
+            ov = np.asarray(out.v, float)                  # area and centroid evaluated independently of the implementation under test
+            q0, q1, q2 = ov[t[:, 0]], ov[t[:, 1]], ov[t[:, 2]]
+            ta = 0.5 * np.linalg.norm(np.cross(q1 - q0, q2 - q0), axis=1)
+            ar = float(ta.sum()); cen = (((q0 + q1 + q2) / 3.0) * ta[:, None]).sum(axis=0) / max(ar, 1e-300)
+            if not np.all(np.isfinite(ov)) or abs(ar - 1) > 1e-8 or np.max(np.abs(cen)) > 1e-8:
                 return core.Violation("flow-normalised", "result has area %.10g and centroid %s" % (ar, cen), case)
             # each iteration solves (M_k + step A0) V' = M_k V_k
             v0n = normalize(v, t)
